@@ -65,9 +65,9 @@ class LargeCommunity(Attribute):
         large_community_hex = b''
         for large_community in value:
             try:
-                value = large_community.split(':')
-                for sub_value in value:
-                    large_community_hex += struct.pack('!I', int(sub_value))
+                # Global Administrator : Local Data Part 1 : Local Data Part 2 (RFC 8092)
+                global_admin, local_1, local_2 = large_community.split(':')
+                large_community_hex += struct.pack('!III', int(global_admin), int(local_1), int(local_2))
             except Exception:
                 raise excep.UpdateMessageError(
                     sub_error=bgp_cons.ERR_MSG_UPDATE_ATTR_LEN,
